@@ -1073,9 +1073,6 @@ Section Fix.
   (* ---------------------------------------------------------------------------------------------- *)
   (* the loop                                                                                        *)
   (* ---------------------------------------------------------------------------------------------- *)
-  Lemma I2_I1 st m ch : I2 st -> I1 (mkFS (fs_sets st) (fs_max st) ch).
-  Proof. intros (A & B & _). split; auto. Qed.
-
   Lemma first_loop_spec fuel :
     forall st st', I1 st -> first_loop fuel rs st = Ok st' ->
                    I2 st' /\ closed (fs_get (fs_sets st')).
@@ -1148,3 +1145,484 @@ Section Fix.
         apply CA. eapply IX2; eauto.
   Qed.
 End Fix.
+
+(* ================================================================================================ *)
+(* 8. derivations: productive grammars, sentential forms                                             *)
+(* ================================================================================================ *)
+Definition productive (g : grammar) : Prop :=
+  forall X, mentioned g X -> X <> Eps -> exists w, Derives g X w.
+
+(* X derives the sentential form beta: reflexive-transitive closure of replacing one occurrence of a
+   non-terminal by one of its alternatives *)
+Inductive DerivesS (g : grammar) (X : sym) : list sym -> Prop :=
+| DS_refl : DerivesS g X [X]
+| DS_step : forall pre n k rhs post,
+    DerivesS g X (pre ++ Nt n :: post) -> nth_error (rs_get g (Nt n)) k = Some rhs ->
+    DerivesS g X (pre ++ rhs ++ post).
+
+Lemma DerivesS_ctx g X pre Y post gamma :
+  DerivesS g X (pre ++ Y :: post) -> DerivesS g Y gamma -> DerivesS g X (pre ++ gamma ++ post).
+Proof.
+  intros H HY. induction HY as [|p n k rhs q HY IH Hn].
+  - exact H.
+  - replace (pre ++ (p ++ rhs ++ q) ++ post) with ((pre ++ p) ++ rhs ++ (q ++ post))
+      by (repeat rewrite <- app_assoc; reflexivity).
+    eapply DS_step; eauto.
+    replace ((pre ++ p) ++ Nt n :: q ++ post) with (pre ++ (p ++ Nt n :: q) ++ post)
+      by (repeat rewrite <- app_assoc; reflexivity).
+    exact IH.
+Qed.
+
+Lemma Derives_S g :
+  (forall X w, Derives g X w -> DerivesS g X (map Tm w)) /\
+  (forall rhs w, DerivesL g rhs w -> forall Z pre post,
+        DerivesS g Z (pre ++ rhs ++ post) -> DerivesS g Z (pre ++ map Tm w ++ post)).
+Proof.
+  apply (Derives_DerivesL_mut g
+    (fun X w => DerivesS g X (map Tm w))
+    (fun rhs w => forall Z pre post,
+        DerivesS g Z (pre ++ rhs ++ post) -> DerivesS g Z (pre ++ map Tm w ++ post))).
+  - intros i. cbn [map]. constructor.
+  - intros n k rhs w Hn HD IH.
+    specialize (IH (Nt n) [] []). cbn [app] in IH. rewrite !app_nil_r in IH. apply IH.
+    pose proof (DS_step g (Nt n) [] n k rhs [] (DS_refl g (Nt n)) Hn) as H.
+    cbn [app] in H. rewrite app_nil_r in H. exact H.
+  - intros Z pre post H. exact H.
+  - intros X rest w1 w2 HX IHX Hr IHr Z pre post H.
+    rewrite map_app.
+    replace (pre ++ (map Tm w1 ++ map Tm w2) ++ post) with ((pre ++ map Tm w1) ++ map Tm w2 ++ post)
+      by (repeat rewrite <- app_assoc; reflexivity).
+    apply IHr.
+    replace ((pre ++ map Tm w1) ++ rest ++ post) with (pre ++ map Tm w1 ++ (rest ++ post))
+      by (repeat rewrite <- app_assoc; reflexivity).
+    apply DerivesS_ctx with (Y := X); auto.
+Qed.
+
+Lemma DerivesL_app g l1 w1 l2 w2 :
+  DerivesL g l1 w1 -> DerivesL g l2 w2 -> DerivesL g (l1 ++ l2) (w1 ++ w2).
+Proof.
+  intros H1 H2. induction H1 as [|X rest v1 v2 HX Hrest IH].
+  - exact H2.
+  - rewrite <- app_assoc. cbn [app]. constructor; auto.
+Qed.
+
+Lemma productive_list g l :
+  productive g -> (forall y, In y l -> mentioned g y /\ y <> Eps) -> exists w, DerivesL g l w.
+Proof.
+  intros Hp. induction l as [|a l IH]; intros H.
+  - exists []. constructor.
+  - destruct (H a) as [Hm Hne]. { left; auto. }
+    destruct (Hp a Hm Hne) as [w1 H1].
+    destruct IH as [w2 H2]. { intros y Hy. apply H; right; auto. }
+    exists (w1 ++ w2). constructor; auto.
+Qed.
+
+(* the two readings of "a may begin what X derives" *)
+Definition PT (g : grammar) (X : sym) (a : N) : Prop := exists w, Derives g X (a :: w).
+Definition PS (g : grammar) (X : sym) (a : N) : Prop := exists beta, DerivesS g X (Tm a :: beta).
+
+Lemma PT_tm g a : PT g (Tm a) a.
+Proof. exists []. constructor. Qed.
+
+Lemma PS_tm g a : PS g (Tm a) a.
+Proof. exists []. constructor. Qed.
+
+Lemma PT_rule g : wf_grammar g -> productive g ->
+  forall left alts pre s post a,
+    In (left, alts) (right_sides g) -> In (pre ++ s :: post) alts ->
+    (forall y, In y pre -> Derives g y []) -> PT g s a -> PT g left a.
+Proof.
+  intros WF Hp left alts pre s post a Hr Ha Hpre [w Hw].
+  destruct (productive_list g post Hp) as [w' Hw'].
+  { intros y Hy. split.
+    - right. exists left, alts, (pre ++ s :: post). repeat split; auto.
+      apply in_or_app; right; right; auto.
+    - intros ->. eapply (wf_no_eps g WF); eauto. apply in_or_app; right; right; auto. }
+  exists (w ++ w').
+  eapply derives_alt; eauto.
+  change (a :: w ++ w') with ([] ++ ((a :: w) ++ w')).
+  apply DerivesL_app.
+  - apply derivesL_nil; auto.
+  - constructor; auto.
+Qed.
+
+Lemma PS_rule g : wf_grammar g ->
+  forall left alts pre s post a,
+    In (left, alts) (right_sides g) -> In (pre ++ s :: post) alts ->
+    (forall y, In y pre -> Derives g y []) -> PS g s a -> PS g left a.
+Proof.
+  intros WF left alts pre s post a Hr Ha Hpre [beta Hb].
+  destruct (wf_keys_nt g WF _ _ Hr) as [n ->].
+  pose proof (rs_get_In g WF _ _ Hr) as Hget.
+  apply In_nth_error in Ha. destruct Ha as [k Hk]. rewrite <- Hget in Hk.
+  pose proof (DS_step g (Nt n) [] n k _ [] (DS_refl g (Nt n)) Hk) as H0.
+  cbn [app] in H0. rewrite app_nil_r in H0.
+  assert (H1 : DerivesS g (Nt n) (s :: post)).
+  { destruct (Derives_S g) as [_ HL].
+    apply (HL pre [] (derivesL_nil g pre Hpre) (Nt n) [] (s :: post)). exact H0. }
+  exists (beta ++ post).
+  apply (DerivesS_ctx g (Nt n) [] s post (Tm a :: beta)); auto.
+Qed.
+
+(* ================================================================================================ *)
+(* 9. first(string)                                                                                   *)
+(* ================================================================================================ *)
+Lemma addT_In l : forall acc y,
+  In y (fold_left (fun a x => if is_tm x then sinsert sym_ltb a x else a) l acc) <->
+  In y acc \/ (is_tm y = true /\ In y l).
+Proof.
+  induction l as [|x l IH]; intros acc y; cbn [fold_left In].
+  - tauto.
+  - rewrite IH. destruct (is_tm x) eqn:E.
+    + rewrite In_sinsert. split.
+      * intros [[->|H]|[H1 H2]]; auto.
+      * intros [H|[H1 [->|H2]]]; auto.
+    + split.
+      * intros [H|[H1 H2]]; auto.
+      * intros [H|[H1 [->|H2]]]; auto. congruence.
+Qed.
+
+Fixpoint fo_spec (F : sym -> list sym) (str : list sym) (y : sym) : Prop :=
+  match str with
+  | [] => y = Eps
+  | s :: rest => (is_tm y = true /\ In y (F s)) \/ (In Eps (F s) /\ fo_spec F rest y)
+  end.
+
+Lemma first_of_In f str : forall acc y,
+  In y (first_of f str acc) <-> In y acc \/ fo_spec (fs_get f) str y.
+Proof.
+  induction str as [|s rest IH]; intros acc y; cbn [first_of fo_spec].
+  - rewrite In_sinsert. tauto.
+  - destruct (smem sym_ltb (fs_get f s) Eps) eqn:E.
+    + rewrite IH, addT_In. apply smem_In in E. tauto.
+    + rewrite addT_In. apply smem_false in E. tauto.
+Qed.
+
+Lemma first_In g str y : In y (first g str) <-> fo_spec (fs_get (first_sets g)) str y.
+Proof. unfold first. rewrite first_of_In. cbn [In]. tauto. Qed.
+
+(* ================================================================================================ *)
+(* 10. what calculate_first_sets returns                                                              *)
+(* ================================================================================================ *)
+Lemma mentioned_tm_U g i : wf_grammar g -> mentioned g (Tm i) -> In (Tm i) (allsyms (right_sides g)).
+Proof.
+  intros WF [[alts H]|(Y & alts & alt & H1 & H2 & H3)].
+  - destruct (wf_keys_nt g WF _ _ H) as [n Hn]. discriminate.
+  - apply In_allsyms. eauto 6.
+Qed.
+
+Lemma calc_unfold g :
+  calculate_first_sets g =
+  (do st <- first_loop (count_syms (right_sides g) * count_syms (right_sides g) + 2) (right_sides g)
+              (mkFS (if fs_contains (first_sets g) Eps then first_sets g
+                     else ainsert sym_ltb (first_sets g) Eps []) 0 true);
+   Ok (mkG (total_nt g) (right_sides g) (fs_sets st) (fs_max st))).
+Proof. reflexivity. Qed.
+
+Lemma calc_loop g g' :
+  wf_grammar g -> calculate_first_sets g = Ok g' ->
+  exists st,
+    first_loop (count_syms (right_sides g) * count_syms (right_sides g) + 2) (right_sides g)
+               (mkFS [(Eps, [])] 0 true) = Ok st /\
+    g' = mkG (total_nt g) (right_sides g) (fs_sets st) (fs_max st).
+Proof.
+  intros WF. rewrite calc_unfold. rewrite (wf_fresh g WF).
+  cbn [fs_contains alookup ainsert].
+  destruct (first_loop _ _ _) as [st| |] eqn:E; cbn [bind]; intros H; inversion H.
+  exists st. auto.
+Qed.
+
+Lemma I1_init g P : I1 g P (mkFS [(Eps, [])] 0 true).
+Proof. split; cbn [fs_sets fs_max]. apply INV_init. left; auto. Qed.
+
+Lemma calc_main g g' (P : sym -> N -> Prop) :
+  wf_grammar g ->
+  (forall a, P (Tm a) a) ->
+  (forall left alts pre s post a,
+      In (left, alts) (right_sides g) -> In (pre ++ s :: post) alts ->
+      (forall y, In y pre -> Derives g y []) -> P s a -> P left a) ->
+  calculate_first_sets g = Ok g' ->
+  INV g P (first_sets g') /\
+  closed g (fs_get (first_sets g')) /\
+  (forall i, In (Tm i) (allsyms (right_sides g)) ->
+             In (Tm i) (fs_get (first_sets g') (Tm i)) /\ (i <= max_term g')%N) /\
+  (max_term g' = 0%N \/ In (Tm (max_term g')) (allsyms (right_sides g))).
+Proof.
+  intros WF P1 P2 HC. destruct (calc_loop g g' WF HC) as (st & Hl & ->).
+  cbn [first_sets max_term].
+  destruct (first_loop_spec g WF P P1 P2 _ _ _ (I1_init g P) Hl) as ((A & B & C) & D).
+  auto.
+Qed.
+
+Lemma sym_complete g F :
+  wf_grammar g -> closed g F ->
+  (forall i, In (Tm i) (allsyms (right_sides g)) -> In (Tm i) (F (Tm i))) ->
+  forall X w, mentioned g X -> Derives g X w ->
+    (w = [] -> In Eps (F X)) /\ (forall a w', w = a :: w' -> In (Tm a) (F X)).
+Proof.
+  intros WF HC HK X w Hm HD.
+  destruct (closed_complete g F HC HK) as [H _].
+  apply H; auto. intros i ->. apply mentioned_tm_U; auto.
+Qed.
+
+(* ================================================================================================ *)
+(* 11. the theorems                                                                                   *)
+(* ================================================================================================ *)
+
+(* ---- soundness ---------------------------------------------------------------------------------- *)
+Definition g_cex : grammar := mkG 2 [(Nt 0, [[Tm 1; Nt 1]])] [] 0.
+
+Lemma g_cex_wf : wf_grammar g_cex.
+Proof.
+  constructor; cbn [g_cex right_sides first_sets map fst].
+  - constructor; constructor.
+  - intros X alts [H|[]]. inversion H; eauto.
+  - intros X alts alt [H|[]]. inversion H; subst. intros [<-|[]].
+    intros [H1|[H1|[]]]; discriminate.
+  - reflexivity.
+Qed.
+
+Lemma g_cex_first :
+  calculate_first_sets g_cex =
+  Ok (mkG 2 [(Nt 0, [[Tm 1; Nt 1]])] [(Eps, []); (Tm 1, [Tm 1]); (Nt 0, [Tm 1]); (Nt 1, [])] 1).
+Proof. vm_compute. reflexivity. Qed.
+
+Lemma g_cex_Nt1 w : ~ Derives g_cex (Nt 1) w.
+Proof.
+  intros H. inversion H as [|n alt rhs w' Hn HL]; subst.
+  assert (E : rs_get g_cex (Nt 1) = []) by reflexivity.
+  rewrite E in Hn. destruct alt; discriminate.
+Qed.
+
+Lemma g_cex_Nt0 w : ~ Derives g_cex (Nt 0) w.
+Proof.
+  intros H. inversion H as [|n alt rhs w' Hn HL]; subst.
+  assert (E : rs_get g_cex (Nt 0) = [[Tm 1; Nt 1]]) by reflexivity.
+  rewrite E in Hn. destruct alt as [|[|alt]]; cbn [nth_error] in Hn; try discriminate.
+  inversion Hn; subst rhs.
+  inversion HL as [|X rest w1 w2 H1 H2]; subst.
+  inversion H2 as [|X' rest' w3 w4 H3 H4]; subst.
+  eapply g_cex_Nt1; eauto.
+Qed.
+
+(* the statements as written are false: Nt 0 -> Tm 1 Nt 1 with Nt 1 without rules gives
+   FIRST(Nt 0) = {Tm 1} although Nt 0 derives no terminal string *)
+Lemma C13_first_sound_stmt_false : ~ C13_first_sound_stmt.
+Proof.
+  intros H.
+  destruct (H g_cex _ g_cex_wf g_cex_first (Nt 0)) as (H1 & _); [discriminate|].
+  destruct (H1 1%N) as [w Hw].
+  - vm_compute. left; auto.
+  - eapply g_cex_Nt0; eauto.
+Qed.
+
+Lemma C13_first_string_stmt_false : ~ C13_first_string_stmt.
+Proof.
+  intros H.
+  destruct (H g_cex _ [Nt 0] g_cex_wf g_cex_first) as (H1 & _).
+  - constructor; [|constructor]. split; [|discriminate].
+    left. exists [[Tm 1; Nt 1]]. left; auto.
+  - destruct (proj1 (H1 1%N)) as [w Hw].
+    + vm_compute. left; auto.
+    + inversion Hw as [|X rest w1 w2 HX Hrest]; subst. eapply g_cex_Nt0; eauto.
+Qed.
+
+Definition C13_first_sound_partial_stmt : Prop :=
+  forall g g', wf_grammar g -> productive g -> calculate_first_sets g = Ok g' ->
+    forall X, X <> Eps ->
+      (forall a, In (Tm a) (fs_get (first_sets g') X) -> exists w, Derives g X (a :: w)) /\
+      (In Eps (fs_get (first_sets g') X) -> Derives g X []) /\
+      (forall Y, In Y (fs_get (first_sets g') X) -> Y = Eps \/ exists a, Y = Tm a).
+
+Lemma C13_first_sound_partial : C13_first_sound_partial_stmt.
+Proof.
+  intros g g' WF Hp HC X _.
+  destruct (calc_main g g' (PT g) WF (PT_tm g) (PT_rule g WF Hp) HC) as (HI & _).
+  split; [|split].
+  - intros a Ha. apply (inv_tm g (PT g) _ HI X a Ha).
+  - apply (inv_eps g (PT g) _ HI X).
+  - intros Y HY. destruct (inv_mem g (PT g) _ HI X Y HY) as [->|(a & -> & _)]; eauto.
+Qed.
+
+Definition C13_first_sound_sentential_stmt : Prop :=
+  forall g g', wf_grammar g -> calculate_first_sets g = Ok g' ->
+    forall X,
+      (forall a, In (Tm a) (fs_get (first_sets g') X) -> exists beta, DerivesS g X (Tm a :: beta)) /\
+      (In Eps (fs_get (first_sets g') X) -> DerivesS g X [] /\ Derives g X []) /\
+      (forall Y, In Y (fs_get (first_sets g') X) -> Y = Eps \/ exists a, Y = Tm a).
+
+Lemma C13_first_sound_sentential : C13_first_sound_sentential_stmt.
+Proof.
+  intros g g' WF HC X.
+  destruct (calc_main g g' (PS g) WF (PS_tm g) (PS_rule g WF) HC) as (HI & _).
+  split; [|split].
+  - intros a Ha. apply (inv_tm g (PS g) _ HI X a Ha).
+  - intros He. pose proof (inv_eps g (PS g) _ HI X He) as Hd. split; auto.
+    destruct (Derives_S g) as [HS _]. apply (HS X [] Hd).
+  - intros Y HY. destruct (inv_mem g (PS g) _ HI X Y HY) as [->|(a & -> & _)]; eauto.
+Qed.
+
+(* ---- completeness ------------------------------------------------------------------------------- *)
+Lemma C13_first_complete_proof : C13_first_complete_stmt.
+Proof.
+  intros g g' WF HC X Hm _.
+  destruct (calc_main g g' (PS g) WF (PS_tm g) (PS_rule g WF) HC) as (_ & Hcl & HK & _).
+  assert (HK' : forall i, In (Tm i) (allsyms (right_sides g)) ->
+                          In (Tm i) (fs_get (first_sets g') (Tm i))).
+  { intros i Hi. apply HK; auto. }
+  split.
+  - intros a w HD.
+    destruct (sym_complete g _ WF Hcl HK' X (a :: w) Hm HD) as [_ H]. eapply H; eauto.
+  - intros HD.
+    destruct (sym_complete g _ WF Hcl HK' X [] Hm HD) as [H _]. auto.
+Qed.
+
+(* ---- termination -------------------------------------------------------------------------------- *)
+Lemma C13_first_terminates_proof : C13_first_terminates_stmt.
+Proof.
+  intros g WF.
+  destruct (first_loop_term g WF (PS g) (PS_tm g) (PS_rule g WF)
+              (count_syms (right_sides g) * count_syms (right_sides g) + 2)
+              (mkFS [(Eps, [])] 0 true) (I1_init g (PS g))) as [st Hst].
+  { cbn [fs_sets M length]. pose proof (fuel_enough g). lia. }
+  exists (mkG (total_nt g) (right_sides g) (fs_sets st) (fs_max st)).
+  split; [|split; reflexivity].
+  rewrite calc_unfold. rewrite (wf_fresh g WF).
+  cbn [fs_contains alookup ainsert].
+  rewrite Hst. reflexivity.
+Qed.
+
+(* ---- max_used_terminal -------------------------------------------------------------------------- *)
+Lemma C13_maxterm_proof : C13_maxterm_stmt.
+Proof.
+  intros g g' WF HC.
+  destruct (calc_main g g' (PS g) WF (PS_tm g) (PS_rule g WF) HC) as (_ & _ & HK & HM).
+  split.
+  - intros i Hi. apply HK. apply mentioned_tm_U; auto.
+  - destruct HM as [HM|HM]; auto. right.
+    apply In_allsyms in HM. destruct HM as (left & alts & alt & H1 & H2 & H3).
+    right. eauto 6.
+Qed.
+
+(* ---- first(string) ------------------------------------------------------------------------------ *)
+Lemma fo_complete g F :
+  wf_grammar g -> closed g F ->
+  (forall i, In (Tm i) (allsyms (right_sides g)) -> In (Tm i) (F (Tm i))) ->
+  forall str, Forall (fun X => mentioned g X /\ X <> Eps) str ->
+  forall w, DerivesL g str w ->
+    (w = [] -> fo_spec F str Eps) /\ (forall a w', w = a :: w' -> fo_spec F str (Tm a)).
+Proof.
+  intros WF Hcl HK. induction str as [|X rest IH]; intros HF w HD.
+  - inversion HD; subst. cbn [fo_spec]. split; auto. discriminate.
+  - inversion HF as [|X' rest' [Hm Hne] HF']; subst.
+    inversion HD as [|X' rest' w1 w2 HX Hrest]; subst.
+    destruct (sym_complete g F WF Hcl HK X w1 Hm HX) as [S1 S2].
+    destruct (IH HF' w2 Hrest) as [I1' I2'].
+    cbn [fo_spec]. destruct w1 as [|a1 w1]; cbn [app].
+    + split.
+      * intros ->. right. split; auto.
+      * intros a w' ->. right. split; auto. eapply I2'; eauto.
+    + split; [discriminate|]. intros a w' E. inversion E; subst. left. split; auto.
+      eapply S2; eauto.
+Qed.
+
+Lemma fo_sound_eps g P f :
+  INV g P f -> forall str, fo_spec (fs_get f) str Eps -> DerivesL g str [].
+Proof.
+  intros HI. induction str as [|s rest IH]; cbn [fo_spec].
+  - intros _. constructor.
+  - intros [[H _]|[H1 H2]]; [discriminate|].
+    apply (DL_cons g s rest [] []); auto. eapply inv_eps; eauto.
+Qed.
+
+Lemma fo_sound_tm g f :
+  productive g -> INV g (PT g) f ->
+  forall str, Forall (fun X => mentioned g X /\ X <> Eps) str ->
+  forall a, fo_spec (fs_get f) str (Tm a) -> exists w, DerivesL g str (a :: w).
+Proof.
+  intros Hp HI. induction str as [|s rest IH]; intros HF a; cbn [fo_spec].
+  - discriminate.
+  - inversion HF as [|X' rest' [Hm Hne] HF']; subst.
+    intros [[_ H]|[H1 H2]].
+    + destruct (inv_tm g (PT g) f HI s a H) as [w Hw].
+      destruct (productive_list g rest Hp) as [w' Hw'].
+      { intros y Hy. rewrite Forall_forall in HF'. apply HF'; auto. }
+      exists (w ++ w'). apply (DL_cons g s rest (a :: w) w'); auto.
+    + destruct (IH HF' a H2) as [w Hw]. exists w.
+      apply (DL_cons g s rest [] (a :: w)); auto. eapply inv_eps; eauto.
+Qed.
+
+(* sentential reading, hypothesis-free: the terminal comes from a symbol reached through an
+   erasable prefix *)
+Lemma fo_sound_tm_sentential g f :
+  INV g (PS g) f ->
+  forall str a, fo_spec (fs_get f) str (Tm a) ->
+    exists pre s post beta, str = pre ++ s :: post /\ DerivesL g pre [] /\ DerivesS g s (Tm a :: beta).
+Proof.
+  intros HI. induction str as [|s rest IH]; intros a; cbn [fo_spec].
+  - discriminate.
+  - intros [[_ H]|[H1 H2]].
+    + destruct (inv_tm g (PS g) f HI s a H) as [beta Hb].
+      exists [], s, rest, beta. repeat split; auto. constructor.
+    + destruct (IH a H2) as (pre & s' & post & beta & -> & Hpre & Hb).
+      exists (s :: pre), s', post, beta. repeat split; auto.
+      apply (DL_cons g s pre [] []); auto. eapply inv_eps; eauto.
+Qed.
+
+Definition C13_first_string_partial_stmt : Prop :=
+  forall g g' str, wf_grammar g -> productive g -> calculate_first_sets g = Ok g' ->
+    Forall (fun X => mentioned g X /\ X <> Eps) str ->
+    (forall a, In (Tm a) (first g' str) <-> exists w, DerivesL g str (a :: w)) /\
+    (In Eps (first g' str) <-> DerivesL g str []).
+
+Lemma C13_first_string_partial : C13_first_string_partial_stmt.
+Proof.
+  intros g g' str WF Hp HC HF.
+  destruct (calc_main g g' (PT g) WF (PT_tm g) (PT_rule g WF Hp) HC) as (HI & Hcl & HK & _).
+  assert (HK' : forall i, In (Tm i) (allsyms (right_sides g)) ->
+                          In (Tm i) (fs_get (first_sets g') (Tm i))).
+  { intros i Hi. apply HK; auto. }
+  split.
+  - intros a. rewrite first_In. split.
+    + apply fo_sound_tm; auto.
+    + intros [w Hw].
+      destruct (fo_complete g _ WF Hcl HK' str HF _ Hw) as [_ H]. eapply H; eauto.
+  - rewrite first_In. split.
+    + eapply fo_sound_eps; eauto.
+    + intros Hw. destruct (fo_complete g _ WF Hcl HK' str HF _ Hw) as [H _]. auto.
+Qed.
+
+(* what holds of first(string) without `productive` *)
+Definition C13_first_string_uncond_stmt : Prop :=
+  forall g g' str, wf_grammar g -> calculate_first_sets g = Ok g' ->
+    Forall (fun X => mentioned g X /\ X <> Eps) str ->
+    (forall a, (exists w, DerivesL g str (a :: w)) -> In (Tm a) (first g' str)) /\
+    (forall a, In (Tm a) (first g' str) ->
+       exists pre s post beta, str = pre ++ s :: post /\ DerivesL g pre [] /\ DerivesS g s (Tm a :: beta)) /\
+    (In Eps (first g' str) <-> DerivesL g str []).
+
+Lemma C13_first_string_uncond : C13_first_string_uncond_stmt.
+Proof.
+  intros g g' str WF HC HF.
+  destruct (calc_main g g' (PS g) WF (PS_tm g) (PS_rule g WF) HC) as (HI & Hcl & HK & _).
+  assert (HK' : forall i, In (Tm i) (allsyms (right_sides g)) ->
+                          In (Tm i) (fs_get (first_sets g') (Tm i))).
+  { intros i Hi. apply HK; auto. }
+  split; [|split].
+  - intros a [w Hw]. rewrite first_In.
+    destruct (fo_complete g _ WF Hcl HK' str HF _ Hw) as [_ H]. eapply H; eauto.
+  - intros a. rewrite first_In. apply fo_sound_tm_sentential; auto.
+  - rewrite first_In. split.
+    + eapply fo_sound_eps; eauto.
+    + intros Hw. destruct (fo_complete g _ WF Hcl HK' str HF _ Hw) as [H _]. auto.
+Qed.
+
+Print Assumptions C13_first_sound_stmt_false.
+Print Assumptions C13_first_string_stmt_false.
+Print Assumptions C13_first_sound_partial.
+Print Assumptions C13_first_sound_sentential.
+Print Assumptions C13_first_complete_proof.
+Print Assumptions C13_first_terminates_proof.
+Print Assumptions C13_maxterm_proof.
+Print Assumptions C13_first_string_partial.
+Print Assumptions C13_first_string_uncond.
